@@ -96,6 +96,12 @@ where
     }
 
     fn map_and_write_current_buffer(&mut self) -> io::Result<()> {
+        // Nothing was written since the last marker byte (or at all). There is no remainder to
+        // map, the mapping function must not be invoked with an empty segment.
+        if self.buffer.is_empty() {
+            return Ok(());
+        }
+
         match self.inner {
             Some(ref mut inner) => inner.write_all(&(self.mapping_fn)(mem::take(&mut self.buffer))),
             None => Ok(()),
